@@ -579,6 +579,71 @@ fn state_of(r: &mut RLN, depth: usize, full: bool) -> Result<Vec<u8>, String> {
     Ok(out)
 }
 
+fn ctor_probe(seed: u64, zkey: &[u8], graph: &[u8], ctx: &mut Ctx) -> Option<Violation> {
+    let mut rng = Prng::new(seed ^ 0xc7012);
+    let depth = *rng.pick(&[1usize, 2, 3, 5]);
+    let cfgs: [&[u8]; 8] = [
+        b"{}",
+        b"",
+        b"{",
+        b"not json",
+        b"{\"tree_config\": 7}",
+        b"{\"tree_config\": {\"use_compression\": true}}",
+        b"{\"tree_config\": {\"cache_capacity\": \"big\"}}",
+        b"{\"tree_config\": {\"mode\": \"NoSuchMode\"}}",
+    ];
+    let which = rng.below(3);
+    let cfg: Vec<u8> = rng.pick(&cfgs).to_vec();
+    // new_with_params takes the inner tree configuration
+    let inner: [&[u8]; 5] = [b"", b"{", b"{\"use_compression\": true}", b"{\"cache_capacity\": \"big\"}", b"{\"temporary\": true}"];
+    let inner_cfg: Vec<u8> = rng.pick(&inner).to_vec();
+    let (zk, gr): (Vec<u8>, Vec<u8>) = match rng.below(5) {
+        0 => (zkey[..zkey.len().min(1000)].to_vec(), graph.to_vec()),
+        1 => (zkey.to_vec(), graph[..graph.len() / 2].to_vec()),
+        2 => (Vec::new(), graph.to_vec()),
+        3 => (zkey.to_vec(), Vec::new()),
+        _ => (zkey.to_vec(), graph.to_vec()),
+    };
+    let rust_ok = if which == 0 {
+        match guarded(|| RLN::new_with_params(depth, zk.clone(), gr.clone(), Cursor::new(inner_cfg.clone())).map(|_| ())) {
+            Ok(r) => r.is_ok(),
+            Err(_) => {
+                ctx.counters.inc("ctor_probe_rust_panicked");
+                return None;
+            }
+        }
+    } else {
+        match guarded(|| RLN::new(depth, Cursor::new(cfg.clone())).map(|_| ())) {
+            Ok(r) => r.is_ok(),
+            Err(_) => {
+                ctx.counters.inc("ctor_probe_rust_panicked");
+                return None;
+            }
+        }
+    };
+    let mut p: *mut RLN = std::ptr::null_mut();
+    let ffi_ok = if which == 0 {
+        ffi::new_with_params(depth, &buf(&zk), &buf(&gr), &buf(&inner_cfg), &mut p)
+    } else {
+        ffi::new(depth, &buf(&cfg), &mut p)
+    };
+    ctx.counters.inc(if rust_ok { "ctor_probe_ok" } else { "ctor_probe_err" });
+    ctx.log.add(&[0xc7, rust_ok as u8, ffi_ok as u8, p.is_null() as u8]);
+    let mut v = None;
+    if ffi_ok != rust_ok {
+        v = Some(Violation { step: 0, call: "new".into(), clause: "flag".into(), detail: format!("constructor probe (which={which}): the FFI reports {ffi_ok}, the Rust API Ok={rust_ok}") });
+    } else if ffi_ok && p.is_null() {
+        v = Some(Violation { step: 0, call: "new".into(), clause: "ctx".into(), detail: "the FFI constructor reports success and stored no context".into() });
+    } else if !ffi_ok && !p.is_null() {
+        v = Some(Violation { step: 0, call: "new".into(), clause: "ctx".into(), detail: "the FFI constructor reports failure and stored a context".into() });
+        p = std::ptr::null_mut(); // do not free something we know nothing about
+    }
+    if !p.is_null() {
+        unsafe { drop(Box::from_raw(p)) };
+    }
+    v
+}
+
 pub fn run_trace(trace: &Trace, ctx: &mut Ctx) -> RunOutcome {
     let zkey: &[u8] = rln::circuit::ZKEY_BYTES;
     #[cfg(feature = "arkzkey")]
@@ -604,6 +669,12 @@ pub fn run_trace(trace: &Trace, ctx: &mut Ctx) -> RunOutcome {
     };
     if !ok || ffi_ctx.is_null() {
         return RunOutcome { violation: Some(Violation { step: 0, call: "new".into(), clause: "flag".into(), detail: "the FFI constructor failed where the Rust constructor succeeded".into() }), harness_error: None };
+    }
+    // constructor probe: one seeded constructor request that may fail (broken configuration, broken key or graph bytes);
+    // the FFI constructor reports success exactly when the Rust one returns Ok and stores a context only then
+    if let Some(v) = ctor_probe(trace.seed, zkey, graph, ctx) {
+        unsafe { drop(Box::from_raw(ffi_ctx)) };
+        return RunOutcome { violation: Some(v), harness_error: None };
     }
     let mut s = Sides { rust, ffi: ffi_ctx, msgs_rust: Vec::new(), msgs_ffi: Vec::new() };
     let mut depth = trace.depth;
